@@ -25,6 +25,10 @@ def step (line : String) : String :=
       | none => "panic"
       | some b => toString b
     s!"first={s.firstIndex} last={s.lastIndex} count={s.count} range={showORange (s.range? ix)} eoi={eoi}"
+  | ["SEGS", k, i, e] =>
+    let s : Segmenter := ⟨nat! k, nat! i, nat! e⟩
+    let segs := s.segments
+    showRanges segs ++ " blocks=" ++ ",".intercalate ((segs.map Range.blocks).flatten.map toString)
   | ["IDX", k, b] =>
     let s : Segmenter := ⟨nat! k, 0, 0⟩
     s!"start={s.indexForStartBlock (nat! b)} end={s.indexForEndBlock (nat! b)}"
